@@ -82,7 +82,7 @@ class CallMixin(object):
         return self.apply_contract(st, con, finfo, args, kwargs)
     if finfo.is_contextmanager:
       return [(st, VCtxMgr(finfo, args, kwargs, closure))]
-    if _has_yield(finfo.node):
+    if _has_yield(finfo.node) and not (con is not None and con.coroutine_ and self.unit_contract is con and not self.call_stack):
       raise Unsupported('generator function %s (needs a contract)' % finfo.qualname)
     for d in finfo.decorators:
       if d not in ('property', 'staticmethod', 'classmethod', 'abc.abstractmethod', 'abc.abstractproperty',
@@ -293,6 +293,18 @@ class StmtMixin(object):
 
   def exec_stmt(self, st, stmt):
     self.cur_node = stmt
+    con = self.unit_contract
+    if con is not None and con.coroutine_ and len(self.call_stack) == 1 and not self.spec_mode and \
+        isinstance(stmt, (ast.Expr, ast.Assign, ast.AugAssign)) and isinstance(stmt.value, ast.Yield):
+      # a suspension point of the generator under verification: cut before the statement (its only pre-yield work is
+      # loading local names, checked below), resume with an arbitrary sent value
+      if stmt.value.value is not None and not isinstance(stmt.value.value, (ast.Constant, ast.Name)):
+        raise Unsupported('coroutine yields a computed value')
+      targets = [stmt.target] if isinstance(stmt, ast.AugAssign) else (stmt.targets if isinstance(stmt, ast.Assign) else [])
+      if not all(isinstance(t, ast.Name) for t in targets):
+        raise Unsupported('coroutine: yield assigned to a non-local target')
+      if not self.co_suspend(st):
+        return []
     m = getattr(self, 's_' + type(stmt).__name__, None)
     if m is None:
       raise Unsupported('statement %s' % type(stmt).__name__)
@@ -311,6 +323,8 @@ class StmtMixin(object):
     return out
 
   def s_Expr(self, st, stmt):
+    if isinstance(stmt.value, ast.Yield) and self.unit_contract is not None and self.unit_contract.coroutine_ and len(self.call_stack) == 1:
+      return self.ctl_of(self.eval(st, stmt.value))
     if isinstance(stmt.value, ast.Yield):
       return self.do_yield(st, stmt.value)
     if isinstance(stmt.value, ast.Constant):
@@ -713,9 +727,34 @@ class StmtMixin(object):
         seq = self.concrete_iter(s, it)
         if seq is not None:
           return self.unrolled_for(s, stmt, seq, 0)
+        bound = getattr(self.ctx, 'bounded_lists', None)
+        if bound is not None:
+          return self.bounded_for(s, stmt, it, bound)
         raise Unsupported('loop `%s` over a symbolic iterable needs an invariant' % self.loop_key(stmt))
       return self.for_with_invariant(s, stmt, it, spec)
     return self.ctl_of(self.eval(st, stmt.iter), fin)
+
+  def bounded_for(self, st, stmt, it, bound):
+    """BOUNDED stand-in (never counted as proof): a loop without invariant over a symbolic sequence is unrolled for every
+    length 0..bound; longer sequences are not explored."""
+    rev = False
+    if isinstance(it, VIterView) and it.how == 'reversed':
+      rev, it = True, it.base
+    seq, elem_of = self.iter_as_list(st, it)
+    n = self.list_len(st, seq)
+    self.ctx.bounded_notes = getattr(self.ctx, 'bounded_notes', [])
+    self.ctx.bounded_notes.append('loop `%s`: sequences of length <= %d only' % (self.loop_key(stmt), bound))
+    out = []
+    for k in range(bound + 1):
+      s = st.fork()
+      s.assume(n == k)
+      if not self.feasible(s):
+        continue
+      items = [elem_of(s, z3.IntVal(i)) for i in range(k)]
+      if rev:
+        items.reverse()
+      out.extend(self.unrolled_for(s, stmt, items, 0))
+    return out
 
   def concrete_iter(self, st, it):
     """Python list of element values when the iterable has concrete length, else None."""
